@@ -558,6 +558,16 @@ fn main() {
             Err(_) => run.ev.discard("corpus-file-not-utf8"),
         }
     }
+    // canonical inputs of all recorded findings (open ones are tolerated by signature, repaired ones must pass)
+    if let Ok(rd) = std::fs::read_dir(vcore::verif_root().join("known").join(PROP)) {
+        let mut ps: Vec<_> = rd.flatten().map(|e| e.path()).collect();
+        ps.sort();
+        for p in ps {
+            if let Ok(t) = std::fs::read_to_string(&p) {
+                inputs.push(("regression:recorded-finding", t));
+            }
+        }
+    }
     run.ev.set("fuzz_corpus_files", json!(corpus.len()));
     run.batch(inputs);
 
